@@ -673,7 +673,8 @@ Qed.
 Lemma step_inv st f t o : Inv st f t -> good_opb sty o = true ->
   exists st' f' es, sstep w st f o = Ok (st', f', es) /\ Inv st' f' (feed w t es).
 Proof.
-  intros HI Hg. destruct o as [|i text nl|i text|i n|i n]; cbn [sstep good_opb] in *.
+  intros HI Hg. destruct o as [ind|i0 text0|i text nl|i text|i n|i n]; cbn [sstep good_opb] in *.
+  2: discriminate.      (* add_content alone is outside the class *)
   - (* create *)
     cbn [sstep_ansi]. eexists _, _, _. split; [reflexivity|].
     destruct HI as (-> & Hok & Hf). split; [|split; [|exact Hf]].
@@ -735,7 +736,8 @@ Qed.
 Definition plain_char (c : N) : Prop := c <> LT /\ c <> BSL /\ c <> ESC /\ c <> TAB.
 Definition plain_text (t : str) : Prop := Forall plain_char t.
 Definition plain_op (o : sop) : Prop :=
-  match o with SWrite _ t _ | SOverwrite _ t => plain_text t | SIndent _ n => n = 0 | _ => True end.
+  match o with SWrite _ t _ | SOverwrite _ t => plain_text t | SIndent _ n => n = 0 | SCreate ind => ind = 0
+             | SAddContent _ _ => False | _ => True end.
 
 Lemma lines_of_P (P : N -> Prop) s : Forall P s -> Forall (Forall P) (lines_of s).
 Proof.
@@ -771,7 +773,7 @@ Qed.
 Lemma plain_ops_good sty ops : Forall plain_op ops -> good_opsb sty ops = true.
 Proof.
   unfold good_opsb. intros H. apply forallb_forall. intros o Ho. rewrite Forall_forall in H. specialize (H o Ho).
-  destruct o; cbn [good_opb plain_op] in *; try reflexivity; apply plain_text_good, H.
+  destruct o; cbn [good_opb plain_op] in *; try reflexivity; try contradiction; apply plain_text_good, H.
 Qed.
 
 (* the content lines of a run of plain operations are the lines written: plain, not indented *)
@@ -789,7 +791,8 @@ Proof. intros H. rewrite <- (firstn_skipn n l) in H. apply Forall_app in H. taut
 Lemma step_ansi_content w st f o st' f' es : plain_op o -> all_content (Forall plain_char) st ->
   sstep_ansi w st f o = Ok (st', f', es) -> all_content (Forall plain_char) st'.
 Proof.
-  intros Ho Ha. destruct o as [|i text nl|i text|i n|i n]; cbn [sstep_ansi plain_op] in *.
+  intros Ho Ha. destruct o as [ind|i0 text0|i text nl|i text|i n|i n]; cbn [sstep_ansi plain_op] in *.
+  2: contradiction.
   - intros H. inversion H; subst. apply Forall_app. split; [exact Ha|]. repeat constructor.
   - destruct (nth_error st i) as [s|] eqn:Hn; [|intros H; inversion H; subst; exact Ha].
     destruct (all_content_nth _ st i s Hn Ha) as [Hc Hi]. rewrite Hi.
@@ -816,7 +819,7 @@ Qed.
 Lemma step_content w st f o st' f' es : plain_op o -> all_content (Forall plain_char) st ->
   sstep w st f o = Ok (st', f', es) -> all_content (Forall plain_char) st'.
 Proof.
-  intros Ho Ha. destruct o as [|i text nl|i text|i n|i n]; try apply (step_ansi_content w st f _ st' f' es Ho Ha).
+  intros Ho Ha. destruct o as [ind|i0 text0|i text nl|i text|i n|i n]; try apply (step_ansi_content w st f _ st' f' es Ho Ha).
   cbn [sstep]. destruct (sstep_ansi w st f (SClear i None)) as [[[st1 f1] e1]|e] eqn:E1; cbn [bind fst snd]; [|discriminate].
   pose proof (step_ansi_content w st f (SClear i None) st1 f1 e1 I Ha E1) as H1.
   destruct (sstep_ansi w st1 f1 (SWrite i text true)) as [[[st2 f2] e2]|e] eqn:E2; cbn [bind fst snd]; [|discriminate].
@@ -868,11 +871,13 @@ Qed.
 Lemma plain_degrades_lemma w ops : forall st f r, srun false w st f ops = Ok r -> forallb plain_emit (snd r) = true.
 Proof.
   induction ops as [|o r IH]; intros st f x; cbn [srun]; [intros H; inversion H; reflexivity|].
-  destruct (sstep_plain st f o) as [[[st1 f1] e1]|e] eqn:E1; cbn [bind fst snd]; [|discriminate].
+  destruct (sstep_plain w st f o) as [[[st1 f1] e1]|e] eqn:E1; cbn [bind fst snd]; [|discriminate].
   destruct (srun false w st1 f1 r) as [[[st2 f2] e2]|e] eqn:E2; cbn [bind fst snd]; [|discriminate].
   intros H. inversion H; subst. cbn [snd]. rewrite forallb_app. specialize (IH st1 f1 _ E2). cbn [snd] in IH. rewrite IH, Bool.andb_true_r.
-  destruct o as [|i text nl|i text|i n|i n]; cbn [sstep_plain] in E1.
+  destruct o as [ind|i0 text0|i text nl|i text|i n|i n]; cbn [sstep_plain] in E1.
   - inversion E1; reflexivity.
+  - unfold add_content_step in E1. destruct (nth_error st i0); [|inversion E1; reflexivity].
+    destruct (measure w f _ _) as [m|e]; cbn [bind] in E1; [|discriminate]. inversion E1; reflexivity.
   - destruct (nth_error st i); [|inversion E1; reflexivity].
     destruct (write_plain f _ text nl) as [y|e] eqn:EW; cbn [bind] in E1; [|discriminate]. inversion E1; subst. apply (write_plain_emits _ _ _ _ _ EW).
   - destruct (nth_error st i); [|inversion E1; reflexivity].
@@ -891,4 +896,133 @@ Proof.
   - apply (remove_format_ok sty f l _ Hf H3).
   - apply (deco_of_plain sty l _ f H2 H3 Hf).
   - cbn [measure]. destruct (remove_format_ok sty f l _ Hf H3) as (f' & E & Hf'). rewrite E. cbn [bind fst snd]. eauto.
+Qed.
+
+(* ---------- 12. the run told in full (srun_part) is the run ---------- *)
+Lemma srun_part_ok ansi w ops : forall st f st' f' es,
+  srun ansi w st f ops = Ok (st', f', es) <-> srun_part ansi w st f ops = (st', f', es, None).
+Proof.
+  induction ops as [|o r IH]; intros st f st' f' es; cbn [srun srun_part].
+  - split; intros H; inversion H; reflexivity.
+  - destruct (if ansi then sstep w st f o else sstep_plain w st f o) as [[[st1 f1] e1]|k]; cbn [bind fst snd].
+    2: split; discriminate.
+    specialize (IH st1 f1).
+    destruct (srun ansi w st1 f1 r) as [[[st2 f2] e2]|k2]; cbn [bind fst snd];
+      destruct (srun_part ansi w st1 f1 r) as [[[st3 f3] e3] [[j k3]|]]; cbn [option_map].
+    + pose proof (proj1 (IH st2 f2 e2) eq_refl) as X. discriminate X.
+    + pose proof (proj1 (IH st2 f2 e2) eq_refl) as X. inversion X; subst. split; intros H; inversion H; reflexivity.
+    + split; discriminate.
+    + pose proof (proj2 (IH st3 f3 e3) eq_refl) as X. discriminate X.
+Qed.
+(* ... and when a call raises, everything before it is the run of the calls before it *)
+Lemma srun_part_err ansi w ops : forall st f st' f' es j k,
+  srun_part ansi w st f ops = (st', f', es, Some (j, k)) ->
+  srun ansi w st f (firstn j ops) = Ok (st', f', es) /\
+  exists o, nth_error ops j = Some o /\ (if ansi then sstep w st' f' o else sstep_plain w st' f' o) = Err k.
+Proof.
+  induction ops as [|o r IH]; intros st f st' f' es j k; cbn [srun_part]; [discriminate|].
+  destruct (if ansi then sstep w st f o else sstep_plain w st f o) as [[[st1 f1] e1]|k1] eqn:E1; cbn [fst snd].
+  - destruct (srun_part ansi w st1 f1 r) as [[[st3 f3] e3] [[j3 k3]|]] eqn:E2; cbn [option_map fst snd]; [|discriminate].
+    intros H. inversion H; subst. destruct (IH _ _ _ _ _ _ _ E2) as (Hr & o' & Hn & He).
+    split; [|exists o'; split; assumption]. cbn [firstn srun]. rewrite E1. cbn [bind fst snd]. rewrite Hr. reflexivity.
+  - intros H. inversion H; subst. split; [reflexivity|]. exists o. split; [reflexivity|exact E1].
+Qed.
+
+(* ---------- 13. without ANSI support: exactly the appended lines ---------- *)
+(* what an undecorated run puts on the stream, said without the formatter: for every write / write_line / overwrite on a
+   section that exists, the VISIBLE text of the indented lines of the text, joined by line feeds, and one more line feed
+   after write_line / overwrite; nothing for section(), indent, clear.  inds: the indentation of every section. *)
+Definition set_ind (inds : list nat) (i n : nat) : list nat :=
+  match nth_error inds i with Some _ => firstn i inds ++ n :: skipn (S i) inds | None => inds end.
+Definition vis_text (sty : styles) (n : nat) (text : str) : str := join_with NL (map (vis sty) (content_lines n text)).
+Fixpoint plain_out (sty : styles) (inds : list nat) (ops : list sop) : list emit :=
+  match ops with
+  | [] => []
+  | SCreate k :: r => plain_out sty (inds ++ [k]) r
+  | SIndent i n :: r => plain_out sty (set_ind inds i n) r
+  | SWrite i text nl :: r =>
+    (match nth_error inds i with Some n => emits_of_text (vis_text sty n text) ++ (if nl then [Nl] else []) | None => [] end)
+    ++ plain_out sty inds r
+  | SOverwrite i text :: r =>
+    (match nth_error inds i with Some n => emits_of_text (vis_text sty n text) ++ [Nl] | None => [] end) ++ plain_out sty inds r
+  | _ :: r => plain_out sty inds r
+  end.
+
+Definition pfmt_ok (sty : styles) (f : formatter) : Prop := f_kind f <> FNull /\ f_styles f = sty /\ f_stack f = [].
+Lemma remove_format_pok sty f m o : pfmt_ok sty f -> colorize sty false [] m = Ok ([], o) ->
+  exists f', remove_format f m = Ok (f', o) /\ pfmt_ok sty f'.
+Proof.
+  intros (Hk & Hs & Hst) H. unfold remove_format. destruct (f_kind f) eqn:Ek; try congruence;
+    rewrite Hs, Hst, H; cbn [bind fst snd]; eexists; (split; [reflexivity|]); unfold pfmt_ok; cbn; rewrite ?Ek; repeat split; congruence.
+Qed.
+Lemma write_plain_ok sty f n text nl : pfmt_ok sty f -> good_textb sty text = true ->
+  exists f', write_plain f n text nl = Ok (f', emits_of_text (vis_text sty n text) ++ (if nl then [Nl] else [])) /\ pfmt_ok sty f'.
+Proof.
+  intros Hf Hg. pose proof (good_text_spec sty text Hg) as Hl. destruct (content_lines_ok sty n text Hl) as [Hes Hne].
+  unfold write_plain. rewrite indent_text_join. destruct (join_plain sty _ Hne Hes) as [_ H2].
+  destruct (remove_format_pok sty f _ _ Hf H2) as (f' & E & Hf'). rewrite E. cbn [bind fst snd]. eauto.
+Qed.
+Lemma map_indent_set st i s n : nth_error st i = Some s ->
+  map sc_indent (set_sec st i (with_indent s n)) = set_ind (map sc_indent st) i n.
+Proof.
+  intros H. unfold set_sec, set_ind. rewrite (map_nth_error sc_indent _ _ H), map_app. cbn [map with_indent sc_indent].
+  now rewrite firstn_map, skipn_map.
+Qed.
+Lemma nth_indent st i : nth_error (map sc_indent st) i = option_map sc_indent (nth_error st i).
+Proof.
+  destruct (nth_error st i) as [s|] eqn:E; [exact (map_nth_error sc_indent _ _ E)|].
+  apply nth_error_None. rewrite map_length. now apply nth_error_None.
+Qed.
+Lemma plain_run_appends w sty ops : forall st f, pfmt_ok sty f -> good_opsb sty ops = true ->
+  exists st' f', srun false w st f ops = Ok (st', f', plain_out sty (map sc_indent st) ops) /\ pfmt_ok sty f'.
+Proof.
+  induction ops as [|o r IH]; intros st f Hf Hg; cbn [srun].
+  - eexists _, _. split; [reflexivity|exact Hf].
+  - cbn [good_opsb forallb] in Hg. apply Bool.andb_true_iff in Hg as [Hg1 Hg2].
+    destruct o as [ind|i0 text0|i text nl|i text|i n|i n]; cbn [sstep_plain plain_out good_opb] in *.
+    + cbn [bind fst snd]. destruct (IH (st ++ [new_sec ind]) f Hf Hg2) as (st' & f' & E & Hf'). rewrite E. cbn [bind fst snd app].
+      rewrite map_app in *. eexists _, _. split; [reflexivity|exact Hf'].
+    + discriminate.
+    + rewrite nth_indent. destruct (nth_error st i) as [s|]; cbn [option_map].
+      * destruct (write_plain_ok sty f (sc_indent s) text nl Hf Hg1) as (f1 & E1 & Hf1). rewrite E1. cbn [bind fst snd].
+        destruct (IH st f1 Hf1 Hg2) as (st' & f' & E & Hf'). rewrite E. cbn [bind fst snd]. eexists _, _. split; [reflexivity|exact Hf'].
+      * cbn [bind fst snd]. destruct (IH st f Hf Hg2) as (st' & f' & E & Hf'). rewrite E. cbn [bind fst snd app]. eexists _, _. split; [reflexivity|exact Hf'].
+    + rewrite nth_indent. destruct (nth_error st i) as [s|]; cbn [option_map].
+      * destruct (write_plain_ok sty f (sc_indent s) text true Hf Hg1) as (f1 & E1 & Hf1). rewrite E1. cbn [bind fst snd].
+        destruct (IH st f1 Hf1 Hg2) as (st' & f' & E & Hf'). rewrite E. cbn [bind fst snd]. eexists _, _. split; [reflexivity|exact Hf'].
+      * cbn [bind fst snd]. destruct (IH st f Hf Hg2) as (st' & f' & E & Hf'). rewrite E. cbn [bind fst snd app]. eexists _, _. split; [reflexivity|exact Hf'].
+    + cbn [bind fst snd]. destruct (IH st f Hf Hg2) as (st' & f' & E & Hf'). rewrite E. cbn [bind fst snd app]. eexists _, _. split; [reflexivity|exact Hf'].
+    + destruct (nth_error st i) as [s|] eqn:En; cbn [bind fst snd].
+      * destruct (IH (set_sec st i (with_indent s n)) f Hf Hg2) as (st' & f' & E & Hf'). rewrite E. cbn [bind fst snd app].
+        rewrite (map_indent_set st i s n En) in *. eexists _, _. split; [reflexivity|exact Hf'].
+      * destruct (IH st f Hf Hg2) as (st' & f' & E & Hf'). rewrite E. cbn [bind fst snd app].
+        unfold set_ind. rewrite nth_indent, En. cbn [option_map]. eexists _, _. split; [reflexivity|exact Hf'].
+Qed.
+(* ... and no escape byte is among them *)
+Lemma vis_no_esc sty l : okline sty l -> no_esc (vis sty l).
+Proof. intros (_ & (H1 & _) & H3). exact (colorize_plain_P sty _ [] l [] (vis sty l) H1 H3). Qed.
+Lemma join_no_esc (ls : list str) : Forall no_esc ls -> no_esc (join_with NL ls).
+Proof.
+  induction 1 as [|l r Hl Hr IH]; [constructor|]. destruct r as [|y r]; cbn [join_with]; [exact Hl|].
+  apply Forall_app. split; [exact Hl|]. constructor; [discriminate|exact IH].
+Qed.
+Lemma emits_no_esc s : no_esc s -> Forall (fun e => e <> Ch ESC) (emits_of_text s).
+Proof.
+  unfold emits_of_text. induction 1 as [|c r Hc Hr IH]; cbn [map]; constructor; [|exact IH].
+  destruct (N.eqb c LF); [discriminate|]. intros E. inversion E. contradiction.
+Qed.
+Lemma vis_text_no_esc sty n text : good_textb sty text = true -> no_esc (vis_text sty n text).
+Proof.
+  intros Hg. destruct (content_lines_ok sty n text (good_text_spec sty text Hg)) as [Hes _].
+  apply join_no_esc, Forall_map. eapply Forall_impl; [|exact Hes]. apply vis_no_esc.
+Qed.
+Lemma plain_out_no_esc sty ops : forall inds, good_opsb sty ops = true -> Forall (fun e => e <> Ch ESC) (plain_out sty inds ops).
+Proof.
+  induction ops as [|o r IH]; intros inds Hg; [constructor|].
+  cbn [good_opsb forallb] in Hg. apply Bool.andb_true_iff in Hg as [Hg1 Hg2].
+  destruct o as [ind|i0 text0|i text nl|i text|i n|i n]; cbn [plain_out good_opb] in *; try (apply IH; exact Hg2).
+  - apply Forall_app. split; [|apply IH; exact Hg2]. destruct (nth_error inds i); [|constructor].
+    apply Forall_app. split; [apply emits_no_esc, vis_text_no_esc, Hg1|]. destruct nl; repeat constructor; discriminate.
+  - apply Forall_app. split; [|apply IH; exact Hg2]. destruct (nth_error inds i); [|constructor].
+    apply Forall_app. split; [apply emits_no_esc, vis_text_no_esc, Hg1|]. repeat constructor; discriminate.
 Qed.
